@@ -135,6 +135,17 @@ def run_tree(case, ctx):
         st, got = ctx.call(tree_get, t, '.'.join(path))
         ctx.check('getitem_per_path', st == 'ok' and same(got, leaf), lambda: 'tree_get(t, %r) = %r' % (path, got))
     ctx.check('operands_unmodified_deep', idsnap_same(idsnap(t), s0), lambda: 'flatten/getitem modified t')
+    if exp_items and not case.get('alias'):
+        # tree_setitem on an existing leaf path of a private copy: exactly that leaf changes
+        from pyg_base._dict import tree_setitem
+        import copy as _copy
+        priv = _copy.deepcopy(t)
+        it = exp_items[len(exp_items) // 2]
+        path = list(it[:-1])
+        st, _ = ctx.call(tree_setitem, priv, '.'.join(path) if len(path) % 2 else tuple(path), 'NEW')
+        after = m_items(plainify(priv)) if st == 'ok' else None
+        want = [i if list(i[:-1]) != path else tuple(path) + ('NEW',) for i in exp_items]
+        ctx.check('setitem_changes_one_leaf', st == 'ok' and len(after) == len(want) and all(a[:-1] == b[:-1] and same(a[-1], b[-1]) for a, b in zip(after, want)), lambda: 'tree_setitem(t, %r, NEW) -> %s %r' % (path, st, after))
     # ---- update
     if 'u' in case:
         u = codec.dec(case['u'])
